@@ -3,6 +3,24 @@
 COMMON = "Trusted: the harness's mini API server and event loop reproduce what the reconcilers see (list order chosen by the case, work-queue coalescing, status update = status + annotations, followed by a service event); its reference oracles (pool arithmetic, admission, sharing rule) are written from the property text and the user documentation. Kubernetes admission invariants (>=1 port, families consistent with the policy, immutable primary family) are assumed."
 
 TEXT = {
+    "C04": {
+        "level": "Exploration: for each generated cluster view one real layer2Controller per node evaluates ShouldAnnounce over the same nodes map, speaker list, configuration (built by config.For from generated CRs) and endpoint slices; the number of announcing nodes must be exactly 1 when the closed-form eligibility predicate of the statement is non-empty and 0 otherwise, the announcer must be eligible, and a second service on the same address must elect the same node.",
+        "design_ref": "DESIGN.md section 5",
+        "note": "Trusted: the closed-form eligibility predicate written from the statement; all speakers share one view.",
+        "technique": "property-based testing: closed-form oracle + uniqueness relation over all nodes' decisions (rapid)",
+    },
+    "C10": {
+        "level": "Exploration: generated endpoint-slice layouts (repeated addresses with conflicting conditions, nil/true/false ready and serving, missing node names), node conditions/labels, advertisement node selection and both traffic policies; the real bgpController.ShouldAnnounce must equal the closed-form iff of the statement on the domain where an endpoint address lives on one node, and satisfy the two reading-independent implications on the unrestricted domain.",
+        "design_ref": "DESIGN.md section 11",
+        "note": "Trusted: the closed form; main domain restricts each endpoint address to one node (a pod IP is on one node).",
+        "technique": "property-based testing against a closed-form iff (rapid)",
+    },
+    "C12": {
+        "level": "Exploration plus a complete bounded enumeration: metamorphic relations between the layer-2 announcer of a view and of a perturbed view (nodes made ineligible by speaker loss / NetworkUnavailable / exclude label, nodes added, every list permuted): the announcer is unchanged unless it was removed or a new node wins, and no address moves between two nodes eligible before and after; all 32 subsets of a 5-node eligible set x 64 address/name combinations are enumerated on every run.",
+        "design_ref": "DESIGN.md section 13",
+        "note": "Trusted: the eligibility closed form of C04; relations are those of rendezvous hashing stated in the property.",
+        "technique": "property-based testing: metamorphic relations + bounded exhaustive enumeration (rapid)",
+    },
     "C01": {
         "level": "Exploration: two engines. (a) generated histories of allocator API calls (Assign/Allocate/AllocateFromPool/additional family/Unassign/SetPools) with arguments derived from generated Services as the controller derives them; (b) generated histories of service/pool/re-sync events driven through the real ServiceReconciler, PoolReconciler, Listener, controller and allocator over an in-memory API server with a harness-owned schedule. Exclusivity is checked pairwise on Allocator.IPs after every call / handler invocation and on the Service statuses at every quiescence.",
         "design_ref": "DESIGN.md section 2", "note": COMMON,
@@ -54,11 +72,8 @@ TEXT = {
 }
 
 NOT_APPLICABLE = {
-    "C04": "check not built yet (work in progress; see DESIGN.md for the planned generated-input check)",
     "C05": "check not built yet (work in progress; see DESIGN.md for the planned generated-input check)",
     "C09": "check not built yet (work in progress; see DESIGN.md for the planned generated-input check)",
-    "C10": "check not built yet (work in progress; see DESIGN.md for the planned generated-input check)",
-    "C12": "check not built yet (work in progress; see DESIGN.md for the planned generated-input check)",
     "C13": "check not built yet (work in progress; see DESIGN.md for the planned generated-input check)",
     "C14": "check not built yet (work in progress; see DESIGN.md for the planned generated-input check)",
     "C15": "check not built yet (work in progress; see DESIGN.md for the planned generated-input check)",
